@@ -160,6 +160,26 @@ def main(ck):
                 ck.fail("copy_equal", {"kind": "copy", "g": to_sx(grid_data(g))}, {"kind": "copy"})
         except Exception as ex:
             ck.fail("raises", {"kind": "copy"}, {"kind": "copy"}, detail=repr(ex))
+        # a copy edited in place (one entry) must become unequal, and the original must keep its value
+        for what in ("node_lat", "node_lon", "face_node_connectivity"):
+            try:
+                g5 = mk_grid(lon, lat, table)
+                c5 = g5.copy()
+                before = grid_data(g5)
+                arr5 = getattr(c5, what).values
+                if what == "face_node_connectivity":
+                    arr5[0, 0] = (arr5[0, 0] + 1) % len(lon)
+                elif what == "node_lat":
+                    arr5[-1] = arr5[-1] + (0.25 if arr5[-1] < 89 else -0.25)
+                else:
+                    arr5[0] = arr5[0] + (0.25 if arr5[0] < 179 else -0.25)
+                ck.note_case(("copy_edit", what, lon, lat, table))
+                hist["copy_edit_" + what] = hist.get("copy_edit_" + what, 0) + 1
+                eval_pair(ck, g5, c5, "copy_edited_" + what, results, lines)
+                if grid_data(g5) != before:
+                    ck.fail("copy_edit_changes_original", {"kind": "copy_edit", "what": what, "g": to_sx(before)}, {"kind": "copy_edit"})
+            except Exception as ex:
+                ck.fail("raises", {"kind": "copy_edit", "what": what}, {"kind": "copy_edit"}, detail=repr(ex))
         for other in (None, 3, "grid", g._ds, [g], np.zeros(3)):
             try:
                 r1 = (g == other)
